@@ -1,6 +1,7 @@
 package eng
 
 import (
+	"encoding/json"
 	"runtime/pprof"
 	"fmt"
 	"os"
@@ -42,6 +43,13 @@ func loadAll(cfg RunConfig) (*Program, float64, error) {
 	}
 	if err := pr.LoadContracts(filepath.Join(cfg.VerifDir, "contracts-mirror")); err != nil {
 		return nil, 0, err
+	}
+	// C20: store families classified as derived / history / false positive of the syntactic analysis (with the reason)
+	if data, err := os.ReadFile(filepath.Join(cfg.VerifDir, "c20-classification.json")); err == nil {
+		m := map[string]string{}
+		if json.Unmarshal(data, &m) == nil {
+			pr.C20Derived = m
+		}
 	}
 	return pr, nowSec(t0), nil
 }
